@@ -32,7 +32,14 @@ pub struct RoundInfo {
     /// leaf indices added by this commit, and the key package bytes of each
     pub added_leaves: Vec<u32>,
     pub added_kps: Vec<Vec<u8>>,
+    /// identities of the applied adds, in the order the commit applied them
+    pub added_names: Vec<Vec<u8>>,
+    /// leaf indices removed by the applied Remove proposals
+    pub removed_leaves: Vec<u32>,
     pub op_window: (u64, u64),
+    pub committer_new_leaf: u32,
+    /// op number during which the winning commit was built (for the crypto event log)
+    pub build_op: u64,
 }
 
 #[allow(unused_variables)]
@@ -349,12 +356,14 @@ impl World {
             self.g(a[0]).export_tree().to_bytes().unwrap_or_default()
         };
         let mut built: Vec<(usize, CommitOutput, CommitPlan)> = vec![];
+        let mut build_ops: std::collections::BTreeMap<usize, u64> = Default::default();
         for plan in plans {
             let who = plan.committer;
             if built.iter().any(|b| b.0 == who) {
                 continue;
             }
             self.log(json!({"op":"commit","by":who,"by_value":plan.by_value.iter().map(|b| b.describe()).collect::<Vec<_>>(),"identity_change":plan.new_identity.is_some()}));
+            build_ops.insert(who, self.op_no);
             let r = {
                 let plan2 = plan.clone();
                 let g = self.gm(who);
@@ -506,12 +515,10 @@ impl World {
         }
         // cross-check: who the driver believes was removed vs who reported Removed
         // (leaf -> party mapping taken before the commit)
-        let _ = removed_leaves;
         // joiners
         let mut joiners = vec![];
         let new_epoch = epoch_before + 1;
         let tree_oob = out.ratchet_tree.clone();
-        let _ = &added_names;
         let candidates: Vec<usize> = self
             .parties
             .iter()
@@ -567,7 +574,11 @@ impl World {
             new_tree,
             added_leaves,
             added_kps,
+            added_names,
+            removed_leaves,
             op_window: (op0, self.op_no),
+            committer_new_leaf: self.leaf_of(winner),
+            build_op: build_ops.get(&winner).copied().unwrap_or(0),
         };
         self.out.cov.bump("commit_accepted");
         if info.has_path {
@@ -593,6 +604,11 @@ impl World {
             self.violate(
                 format!("C10|honest_commit_rejected|{kind}"),
                 format!("receiver {r} rejected the commit of {committer}: {e}"),
+            );
+        } else if self.prop == "C07" && self.rejoined_same_storage.contains(&r) {
+            self.violate(
+                format!("C07|rejoined_member_with_same_storage_cannot_advance|{kind}"),
+                format!("party {r} was a member before, was removed, came back through a Welcome with the same storage (which still holds prior epochs of its earlier membership) and now rejects the next honest commit (of {committer}): {e}"),
             );
         } else {
             self.log(json!({"op":"stuck","who":r,"err":kind}));
@@ -625,6 +641,11 @@ impl World {
         if self.rejoin_hygiene {
             let gid = self.group_id.clone();
             self.parties[pid].stores.gs.delete_group(&gid);
+        } else {
+            let gid = self.group_id.clone();
+            if self.parties[pid].stores.gs.dump(&gid, 0).max_epoch_id.is_some() {
+                self.rejoined_same_storage.insert(pid);
+            }
         }
         let mut last = String::from("no welcome");
         // a joiner may hold several outstanding key packages: any of the welcomes that names one
@@ -674,6 +695,7 @@ impl World {
         let with_tree = self.rng.chance(1, 2);
         let old_tree = self.g(src).export_tree().to_bytes().unwrap_or_default();
         self.log(json!({"op":"external_commit","joiner":joiner,"gi_from":src,"with_tree":with_tree,"replace":replace}));
+        let ext_build_op = self.op_no;
         let gi = self
             .g(src)
             .group_info_message_allowing_ext_commit(with_tree)
@@ -756,7 +778,11 @@ impl World {
             new_tree,
             added_leaves: vec![],
             added_kps: vec![],
+            added_names: vec![],
+            removed_leaves: replace_leaf.into_iter().collect(),
             op_window: (op0, self.op_no),
+            committer_new_leaf: self.leaf_of(joiner),
+            build_op: ext_build_op,
         };
         self.out.cov.bump("commit_accepted");
         self.out.cov.bump("commit_external");
